@@ -141,6 +141,7 @@ func (s *Session) racCheck(prop string, u0 *Unit, o *Obligation, mv map[string]s
 		return base
 	}
 	nextID := map[string]int64{}
+	var outerHdr [][5]interface{} // (element key, position, ptr, len, cap) of per-channel slice headers
 	var bindRec func(pn string, v Value) Value
 	bind := func(pn string, v Value) Value {
 		switch v.K {
@@ -171,8 +172,23 @@ func (s *Session) racCheck(prop string, u0 *Unit, o *Obligation, mv map[string]s
 			}
 			return Value{K: KBuf, T: v.T, Elem: v.Elem, Term: IntLit(id)}
 		case KSlice:
-			if _, ok := v.Elem.(*types.Slice); ok {
-				return v // outer slices of slices: not re-bound (clauses over them are skipped)
+			if in, ok := v.Elem.(*types.Slice); ok {
+				// [][]T: the outer header from the model, the per-channel headers (unchanged by the
+				// call) as ground header heaps
+				op, _ := mvInt(mv, pn+".ptr")
+				ol, _ := mvInt(mv, pn+".len")
+				oc, ok3 := mvInt(mv, pn+".cap")
+				if !ok3 || oc < ol {
+					oc = ol
+				}
+				k := elemKey(in.Elem())
+				for c := int64(0); c < ol && c < 8; c++ {
+					ip, _ := mvInt(mv, fmt.Sprintf("%s[%d].ptr", pn, c))
+					il, _ := mvInt(mv, fmt.Sprintf("%s[%d].len", pn, c))
+					ic, _ := mvInt(mv, fmt.Sprintf("%s[%d].cap", pn, c))
+					outerHdr = append(outerHdr, [5]interface{}{k, op + c, ip, il, ic})
+				}
+				return Value{K: KSlice, T: v.T, Elem: v.Elem, Ptr: IntLit(op), Len: IntLit(ol), Cap: IntLit(oc)}
 			}
 			p, _ := mvInt(mv, pn+".ptr")
 			l, _ := mvInt(mv, pn+".len")
@@ -221,7 +237,22 @@ func (s *Session) racCheck(prop string, u0 *Unit, o *Obligation, mv map[string]s
 		u.entry[pn] = bind(pn, v)
 	}
 	if hasOuter {
-		return nil, "slices of slices are not re-bound for runtime assertion checking"
+		sp, sl, sc := map[string]*Term{}, map[string]*Term{}, map[string]*Term{}
+		for _, h := range outerHdr {
+			k := h[0].(string)
+			if sp[k] == nil {
+				sp[k], sl[k], sc[k] = constArray(arrII, IntLit(0)), constArray(arrII, IntLit(0)), constArray(arrII, IntLit(0))
+			}
+			at := IntLit(h[1].(int64))
+			sp[k] = Store(sp[k], at, IntLit(h[2].(int64)))
+			sl[k] = Store(sl[k], at, IntLit(h[3].(int64)))
+			sc[k] = Store(sc[k], at, IntLit(h[4].(int64)))
+		}
+		for k := range sp {
+			for _, st := range []*State{old, cur} {
+				st.mem["SP:"+k], st.mem["SL:"+k], st.mem["SC:"+k] = sp[k], sl[k], sc[k]
+			}
+		}
 	}
 	// result
 	var result *Value
